@@ -922,6 +922,46 @@ def probe_fix(h, n_table):
     return r["crash"] is None, lines, r
 
 
+def run_close_on_open(ck, h, rng, quick):
+    """a local close issued from inside the OPENED notification must not be lost: CLOSED follows, the count returns to its
+    value, the peer is not served"""
+    scripts = []
+    for i in range(6 if quick else 60):
+        mode = rng.choice([0, 1, 2])
+        lines = ["cfg mode=%d k=12 w=8 handlers=64 lowq=10 highq=10" % mode] + (["group -"] if mode == 2 else []) + ["start"]
+        n0 = rng.below(3)
+        for c in range(n0):     # ordinary connections first (control)
+            lines += ["connect c%d 10.0.0.%d:%d" % (c, c + 1, 1000 + c), "tick"]
+        c = n0
+        lines += ["closeonopen 1", "connect c%d 10.0.0.9:%d" % (c, 1000 + c), "tick", "tick", "rx c%d %s" % (c, apci.STARTDT_ACT.hex()), "tick 2", "closeonopen 0",
+                  "connect c%d 10.0.0.8:%d" % (c + 1, 1001 + c), "tick", "rx c%d %s" % (c + 1, apci.STARTDT_ACT.hex()), "tick"]
+        scripts.append(("coo%d" % i, lines, n0, c))
+    rc = runner.run_batch(h, [(sid, l) for sid, l, _, _ in scripts])
+    for sid, lines, n0, c in scripts:
+        ck.evaluations += 1
+        o = rc.get(sid, dict(out=[], crash=None))
+        if o["crash"]:
+            ck.fail("input", crash_sig(o["crash"]), "server aborted: %s at %s" % (o["crash"]["kind"], o["crash"]["site"]), {"script": lines, "stderr": o["crash"]["text"]})
+            continue
+        out = o["out"]
+        evs = [l.split()[2] for l in out if l.startswith("ev c%d " % c)]
+        txc = "".join(l.split()[2] for l in out if l.startswith("tx c%d " % c))
+        opens = [int(l.split()[1]) for l in out if l.startswith("open ")]
+        bad = None
+        if evs[:1] != ["OPENED"]:
+            continue
+        if evs != ["OPENED", "CLOSED"]:
+            bad = "connection c%d was closed by the application from inside its OPENED notification; events reported for it: %s (expected OPENED, CLOSED)" % (c, evs)
+        elif apci.STARTDT_CON.hex() in txc:
+            bad = "connection c%d was closed by the application during OPENED but its STARTDT act was still confirmed" % c
+        elif opens and opens[-1] != n0 + 1:
+            bad = "open connections reported %d at the end, %d are open" % (opens[-1], n0 + 1)
+        if bad:
+            ck.fail("input", "oracle:life:close-in-opened", "server lifecycle: " + bad, {"script": lines, "observed": [l for l in out if l.startswith(("ev ", "open "))][-10:]})
+        ck.nontriv(("coo", sid))
+    ck.count("close_in_opened_scripts", len(scripts))
+
+
 def run(ck):
     quick = ck.tier == "quick"
     rng = core.Rng(ck.seed)
@@ -952,6 +992,7 @@ def run(ck):
     except Exception as e:
         m = None
         ck.fail("correspondence", "model-build", "extracted model does not build: " + str(e)[:300], {"theorem": "extraction"})
+    run_close_on_open(ck, h, rng, quick)
     fixed, probe_lines, probe_res = probe_fix(h, n_table)
     ck.extra["fix_null_free_connection_present"] = fixed
     g = Gen(rng, n_table)
